@@ -1088,6 +1088,59 @@ func c12Weights(p *load.Prog, r *oblig.Run) {
 			r.Add("R12.f", "products in WeightedSimilarity", p.Pos(ws.Pos()), "products").Unknown("no XSimilarity * weight product found")
 		}
 	}
+	// R12.g: the loops of the similarity functions that take a best value over pairs run to the end
+	r.Rule("R12.g", "the loops of the similarity functions over pairs of names, families and relatives are left only when their range is exhausted (the best value over all pairs does not depend on the order)", 3)
+	for _, name := range []struct{ typ, fn string }{{"IndividualNode", "Similarity"}, {"IndividualNode", "SurroundingSimilarity"}, {"FamilyNode", "Similarity"}, {"IndividualNodes", "Similarity"}} {
+		fn := p.Method(load.PkgRoot, name.typ, name.fn)
+		if fn == nil {
+			continue
+		}
+		hsAll := loopHeaders(fn)
+		for hi, h := range hsAll {
+			// matrix loops only: a loop that contains, or is contained in, another loop (the greedy pass over the sorted
+			// list of pairs legitimately stops at the first pair below the threshold)
+			nested := false
+			for _, h2 := range hsAll {
+				if h2 != h && (loopBlock(h2, h) || loopBlock(h, h2)) {
+					nested = true
+				}
+			}
+			if !nested {
+				continue
+			}
+			key := fmt.Sprintf("loop #%d in %s", hi+1, load.FuncName(fn))
+			pos := p.Pos(fn.Pos())
+			for _, ins := range h.Instrs {
+				if ins.Pos().IsValid() {
+					pos = p.Pos(ins.Pos())
+					break
+				}
+			}
+			ob := r.Add("R12.g", key, pos, "exits of the loop")
+			bad := ""
+			for _, b := range fn.Blocks {
+				if b == h || !loopBlock(b, h) {
+					continue
+				}
+				for _, sx := range b.Succs {
+					if sx != h && !loopBlock(sx, h) {
+						line := 0
+						for _, ins := range b.Instrs {
+							if ins.Pos().IsValid() {
+								line = p.Fset.Position(ins.Pos()).Line
+							}
+						}
+						bad = fmt.Sprintf("the loop is left from inside its body (near line %d) before its range is exhausted", line)
+					}
+				}
+			}
+			if bad != "" {
+				ob.Fail(bad + ": the value kept is the first acceptable pair in the receiver's order, not the best pair, so a.Similarity(b) and b.Similarity(a) can differ")
+			} else {
+				ob.OK("left only through its header")
+			}
+		}
+	}
 	sim := p.Method(load.PkgRoot, "IndividualNode", "Similarity")
 	o := r.Add("R12.e", "name matrix in IndividualNode.Similarity", "-", "range of the two loops over the names")
 	if sim == nil {
